@@ -98,6 +98,9 @@ class Exec(ExprMixin, AccessMixin, CallMixin, StmtMixin, SpecMixin, HeapMixin, O
           self.havoc_heap(s, con.modifies_, None)
         saved_old = self.old_state
         self.old_state = old
+        self._calls = getattr(self, '_calls', 0) + 1
+        saved_region = getattr(self, 'fresh_region', None)
+        self.fresh_region = 2000000 + self._calls * 100000
         try:
           if how == 'normal':
             result = NONE
@@ -129,6 +132,7 @@ class Exec(ExprMixin, AccessMixin, CallMixin, StmtMixin, SpecMixin, HeapMixin, O
             res = Raised(exc)
         finally:
           self.old_state = saved_old
+          self.fresh_region = saved_region
         s.env = dict(caller_env)
         if self.feasible(s):
           out.append((s, res))
